@@ -125,6 +125,156 @@ func (p *Program) pfPossiblyNil(v ssa.Value) bool {
 	return false
 }
 
+// pfPossiblyNilUnder: some value that may flow into v on a path on which the facts hold is the nil
+// constant.
+func (p *Program) pfPossiblyNilUnder(v ssa.Value, facts []Fact) bool {
+	for _, pv := range p.pfPossibleValuesUnder(v, facts) {
+		if isNilConst(stripConv(pv)) {
+			return true
+		}
+	}
+	return false
+}
+
+// pfDeadClosure: fn is a function literal that its enclosing function never instantiates — no
+// instruction of the (live) parent uses it as an operand. go/ssa keeps the body of a literal whose
+// creating block was removed as unreachable (code after a constant-false branch, copies made by the
+// normaliser's tail duplication); nothing in it ever executes, so its call sites are not callers.
+func pfDeadClosure(fn *ssa.Function) bool {
+	for d := 0; fn != nil && fn.Parent() != nil && d < 8; d++ {
+		parent := fn.Parent()
+		used := false
+		var ops []*ssa.Value
+		for _, b := range parent.Blocks {
+			for _, in := range b.Instrs {
+				ops = in.Operands(ops[:0])
+				for _, op := range ops {
+					if op != nil && *op == ssa.Value(fn) {
+						used = true
+					}
+				}
+			}
+		}
+		if !used {
+			return true
+		}
+		fn = parent
+	}
+	return false
+}
+
+// pfDeadByFacts: the facts contain a constant condition with the opposite value (`if false {…}`):
+// the block they belong to never executes.
+func pfDeadByFacts(fs []Fact) bool {
+	for _, f := range fs {
+		if cb, ok := constBool(f.Cond); ok && cb != f.Pol {
+			return true
+		}
+	}
+	return false
+}
+
+// pfFeasibleEdges: which incoming edges of block b can have been taken (the last time b was entered)
+// on a path on which the facts hold. A fact that tests a Phi of b — `q != nil` / `q == nil` for a
+// nil-able Phi, `q` / `!q` for a boolean Phi — excludes the edges whose incoming value of q
+// contradicts the test: a nil constant where q is known non-nil, a freshly built error/allocation
+// where q is known nil, the opposite boolean constant. All Phis of one block select the same edge,
+// so the verdict narrows every Phi of b (the several results of a multi-return helper whose body
+// was merged into its caller travel as sibling Phis: `obj, err := phi(nil, nil, X), phi(E1, E2, nil)`
+// followed by `if err != nil { return }` leaves obj == X).
+func (p *Program) pfFeasibleEdges(b *ssa.BasicBlock, facts []Fact) []bool {
+	ok := make([]bool, len(b.Preds))
+	for i := range ok {
+		ok[i] = true
+	}
+	for _, f := range facts {
+		if q, isPhi := f.Cond.(*ssa.Phi); isPhi && q.Block() == b && len(q.Edges) == len(ok) {
+			for i, e := range q.Edges {
+				if cb, isC := constBool(e); isC && cb != f.Pol {
+					ok[i] = false
+				}
+			}
+			continue
+		}
+		x, trueMeansNonNil, isTest := errNilTest(f.Cond)
+		if !isTest {
+			continue
+		}
+		q, isPhi := stripConv(x).(*ssa.Phi)
+		if !isPhi || q.Block() != b || len(q.Edges) != len(ok) {
+			continue
+		}
+		nonNil := f.Pol == trueMeansNonNil
+		for i, e := range q.Edges {
+			if nonNil && isNilConst(stripConv(e)) {
+				ok[i] = false
+			}
+			if !nonNil && definitelyNonNil(e) {
+				ok[i] = false
+			}
+		}
+	}
+	return ok
+}
+
+// pfPossibleValuesUnder is possibleValues narrowed by guard facts: a Phi contributes only the values
+// of the incoming edges that are feasible under the facts (see pfFeasibleEdges). With no applicable
+// fact the result equals possibleValues(v).
+func (p *Program) pfPossibleValuesUnder(v ssa.Value, facts []Fact) []ssa.Value {
+	if len(facts) == 0 {
+		return p.possibleValues(v)
+	}
+	var out []ssa.Value
+	seen := map[ssa.Value]bool{}
+	var walk func(v ssa.Value, d int)
+	walk = func(v ssa.Value, d int) {
+		if v == nil || seen[v] {
+			return
+		}
+		seen[v] = true
+		if d > 8 {
+			out = append(out, v)
+			return
+		}
+		switch x := v.(type) {
+		case *ssa.Phi:
+			feasible := p.pfFeasibleEdges(x.Block(), facts)
+			any := false
+			for i := range x.Edges {
+				if i < len(feasible) && feasible[i] {
+					any = true
+				}
+			}
+			for i, e := range x.Edges {
+				if !any || i >= len(feasible) || feasible[i] {
+					walk(e, d+1)
+				}
+			}
+			return
+		case *ssa.UnOp:
+			if x.Op == token.MUL {
+				if a, isAlloc := x.X.(*ssa.Alloc); isAlloc {
+					// spilled local: the reaching stores decide (exactly as in possibleValues)
+					sts, okk := p.storesReaching(a, x)
+					zero := p.mayHoldZero(a, x)
+					if ai := p.allocInfo(a); !ai.unknown && len(ai.stores) > 0 && (okk || zero) {
+						for _, s := range sts {
+							walk(s.Val, d+1)
+						}
+						if zero {
+							out = append(out, zeroConst(x.Type()))
+						}
+						return
+					}
+				}
+			}
+		}
+		out = append(out, v)
+	}
+	walk(v, 0)
+	return out
+}
+
 // pfDefinitelyNil: every value flowing into v is the nil constant.
 func (p *Program) pfDefinitelyNil(v ssa.Value) bool {
 	vals := p.possibleValues(v)
